@@ -91,7 +91,8 @@ ContFn(p, vv) ==
                           vv[NDecl(p) + (CHOOSE j \in DOMAIN C : C[j].ent = n /\ C[j].item = t)]]]
 
 (* ------------------------------ expectation ----------------------------- *)
-World(p, k, vv, mem) == Run(StmtsOf(p, k), ValFn(p, k, vv), ContFn(p, vv), mem)
+FilesOf(p) == IF "files" \in DOMAIN Recs[p] THEN Recs[p].files ELSE <<>>
+World(p, k, vv, mem) == RunF(StmtsOf(p, k), FilesOf(p), ValFn(p, k, vv), ContFn(p, vv), mem)
 
 \* placed entity `ent` (interpreter record) in unit u: same prototype, centre = top-left tile + footprint / 2
 EntAt(u, ent) == {e \in Ids(u) : Ents(u)[e].name = ent.proto
